@@ -474,7 +474,9 @@ impl BitMachine {
 
             Ok(value)
         } else {
-            Ok(Value::unit())
+            // The target type has zero width, but it need not be the unit type
+            // (e.g. 1 × 1): return the unique value of the target type.
+            Ok(Value::zero(&program.arrow().target))
         }
     }
 
